@@ -75,25 +75,45 @@ def tus(tier, seed):
     res.append(dict(name='C12_kernels', src=body, compiler='g++'))
     if tier == 'thorough':
         res.append(dict(name='C12_kernels_clang', src=body, compiler='clang++'))
-    # compound assignment with non-zero exponents (conversion back to the left operand's type rescales);
-    # built-in representations only: `scale` of a wrapper representation is not in the layered model
+    # compound assignment (asge), binary operators and comparisons (bine / cmpe) on scaled nests with non-zero,
+    # different exponents: the conversion back to the left operand's type rescales, `+ -` and the comparisons align
+    # the coarser operand.  Wrapper representations included: there the alignment is `scale<k>` of an
+    # overflow_integer / rounding_integer (power_value of a class type, default_scale through the wrapper's operators)
     ENEST = {'sc': 'scaled_integer<{T}, power<{E}>>', 'sc(ov)': 'scaled_integer<overflow_integer<{T}, native_overflow_tag>, power<{E}>>',
-             'sc(rd)': 'scaled_integer<rounding_integer<{T}, native_rounding_tag>, power<{E}>>', 'int': '{T}'}
+             'sc(rd)': 'scaled_integer<rounding_integer<{T}, native_rounding_tag>, power<{E}>>',
+             'sc(ov(rd))': 'scaled_integer<overflow_integer<rounding_integer<{T}, native_rounding_tag>, native_overflow_tag>, power<{E}>>',
+             'int': '{T}'}
     epairs = [('sc', 'u8', -4, 'sc', 'i8', -4), ('sc', 'u8', 0, 'sc', 'i8', -8), ('sc', 'i8', 0, 'sc', 'i8', -4), ('sc', 'i16', -8, 'sc', 'u8', -3),
               ('sc', 'u16', -4, 'int', 'i8', 0), ('sc', 'u8', -2, 'sc', 'i8', -5), ('sc', 'i8', -3, 'sc', 'i8', -6), ('sc', 'i32', -16, 'sc', 'i32', -12),
-              ('sc', 'u32', -8, 'sc', 'i16', -10), ('sc', 'i8', 2, 'sc', 'i8', -1), ('sc', 'i64', -20, 'sc', 'u8', -4)]
+              ('sc', 'u32', -8, 'sc', 'i16', -10), ('sc', 'i8', 2, 'sc', 'i8', -1), ('sc', 'i64', -20, 'sc', 'u8', -4),
+              # wrapper representations, both directions of the exponent difference
+              ('sc(ov)', 'i8', -4, 'sc(ov)', 'u8', -1), ('sc(ov)', 'u8', -1, 'sc(ov)', 'i8', -6), ('sc(rd)', 'i8', -3, 'sc(rd)', 'i8', -6),
+              ('sc(rd)', 'i16', -1, 'sc(rd)', 'u8', -8), ('sc(ov(rd))', 'i32', -16, 'sc(ov(rd))', 'i32', -12),
+              ('sc(ov(rd))', 'u8', 2, 'sc(ov(rd))', 'i16', -3), ('sc(ov)', 'i32', -12, 'sc(ov)', 'u32', -16), ('sc(rd)', 'u32', 0, 'sc(rd)', 'i64', -30),
+              ('sc(ov)', 'i64', -30, 'sc(ov)', 'i16', -2), ('sc(rd)', 'u16', -4, 'int', 'i32', 0), ('sc(ov(rd))', 'i8', -7, 'int', 'u8', 0),
+              ('sc(ov)', 'u16', 3, 'sc(ov)', 'u16', -12)]
     rnd4 = random.Random(seed * 77 + 5)
+    exps = [-12, -8, -4, -2, 0, 1, 3]
     for _ in range(3 if tier == 'quick' else 24):
-        epairs.append((rnd4.choice(['sc']), rnd4.choice(types4), rnd4.choice([-12, -8, -4, -2, 0, 1, 3]),
-                       rnd4.choice(['sc', 'sc', 'int']), rnd4.choice(types4), rnd4.choice([-12, -8, -4, -2, 0, 1, 3])))
+        epairs.append((rnd4.choice(['sc']), rnd4.choice(types4), rnd4.choice(exps),
+                       rnd4.choice(['sc', 'sc', 'int']), rnd4.choice(types4), rnd4.choice(exps)))
+    for _ in range(4 if tier == 'quick' else 24):
+        el = rnd4.choice(exps)
+        epairs.append((rnd4.choice(['sc(ov)', 'sc(rd)', 'sc(ov(rd))']), rnd4.choice(types4), el,
+                       rnd4.choice(['sc', 'sc', 'sc', 'int']), rnd4.choice(types4), rnd4.choice([e for e in exps if e != el])))
     for i in range(0, len(epairs), 3):
         body = '#include "%s"\nint main(){ install(); Rng rng(seed_from_env()+2000+%d);\n' % (__file__.replace('.py', '.h'), i)
-        for (nl, tl, el, nr, tr, er) in epairs[i:i + 3]:
+        for j, (nl, tl, el, nr, tr, er) in enumerate(epairs[i:i + 3]):
             if nr != 'int' and nr != nl:
                 nr = nl
-            body += '  goe<%s, %s>(rng);\n' % (ENEST[nl].format(T=CT[tl], E=el), ENEST[nr].format(T=CT[tr], E=er))
+            A, B = ENEST[nl].format(T=CT[tl], E=el), ENEST[nr].format(T=CT[tr], E=er)
+            body += '  goe<%s, %s>(rng);\n' % (A, B)
+            # operators and comparisons: exhaustive for one 8-bit pair per translation unit at most
+            body += '  gob<%s, %s, %s>(rng);\n' % (A, B, 'true' if j == 0 and nl != 'sc' else 'false')
         body += '}\n'
         res.append(dict(name='C12_asge_%d' % (i // 3), src=body, compiler='g++'))
+        if tier == 'thorough' and (i // 3) % 4 == 1:
+            res.append(dict(name='C12_asge_%d_clang' % (i // 3), src=body, compiler='clang++'))
     # shift-and-compare equivalence: mixed-exponent comparisons over narrow reps, both operand orders
     # (lines of the C03 table; the driver's oracle is the built-in comparison of the aligned representations)
     import os
